@@ -52,7 +52,7 @@ RULE = ('sim cases (1 in 4): netgen networks (2-8 junctions, thorough to 14; spa
         'in either direction, statuses closed/open/active, 0-4 rounds of 1-3 status changes; via csr (direct call of the '
         'C++ search, rows in sorted or rotated order) or via wn (simulator-maintained adjacency of a pipes/valves model). '
         'Enumerated part: all multigraphs on 1 source + 2 junctions with 0-2 links per pair and every open/closed pattern '
-        '(via wn and csr, followed by two rounds of changes) and 17 hand-built simulation scenarios (parallel pair closed '
+        '(via wn and csr, followed by two rounds of changes) and 43 hand-built simulation scenarios (parallel pair closed '
         'one by one and reopened, dead end cut and reconnected off-grid, every junction cut off, PRV closed/active, pump '
         'outage, PRV and CV inside the cut-off part, draining tank as last source, the same paused, booster / check '
         'valve / PSV pointing out of a dead end and a dead end behind an empty tank at low or negative heads). '
@@ -1101,6 +1101,21 @@ def hand_built():
                                 'setting': {'TCV': 5.0, 'FCV': 0.001, 'PSV': 20.0, 'PRV': 20.0}[inner],
                                 'status': 'ACTIVE'}]
             out.append(s)
+    # valve station: a zone fed only through a regulating (Active) valve whose parallel bypass pipe is closed, from the
+    # start or by a control; an Active valve is a connection
+    for vt in ('PRV', 'FCV', 'TCV'):
+        for late in (False, True):
+            for flip in (False, True):
+                s = _base(_opts(3 * 3600, 3600))
+                s['reservoirs'] = [{'name': 'R1', 'head': 60.0, 'pat': None}]
+                s['junctions'] = [_junction('J1', 10.0), _junction('J2', 8.0), _junction('J3', 6.0, 0.002, 'P1')]
+                a, b = ('J2', 'J1') if flip else ('J1', 'J2')
+                s['pipes'] = [_pipe('L1', 'R1', 'J1'), _pipe('L2', a, b, 'OPEN' if late else 'CLOSED'), _pipe('L3', 'J2', 'J3')]
+                if late:
+                    s['controls'] = [_ctl(3600, 'L2', 'CLOSED')]
+                s['valves'] = [{'name': 'V2', 'a': 'J1', 'b': 'J2', 'type': vt, 'diam': 0.3, 'minor': 0.0,
+                                'setting': {'TCV': 5.0, 'FCV': 0.003, 'PRV': 20.0}[vt], 'status': 'ACTIVE'}]
+                out.append(s)
     return out
 
 
